@@ -135,7 +135,7 @@ class Case:
                 fl = []
                 ini = []
                 for f in at['fields']:
-                    tag = ' `wire:"-"`' if f.get('prevented') else ''
+                    tag = {'pre': ' `wire:"-"`', 'pre2': ' `json:"-" wire:"-"`', 'foreign': ' `hardwire:"-"`', 'other': ' `json:"x"`'}.get(f.get('tag') or ('pre' if f.get('prevented') else ''), '')
                     fl.append('\t%s %s%s' % (f['name'], self.gotype(f['type'], pkg, used), tag))
                     ini.append('%s: %s' % (f['name'], self.mk(f['type'], 'tok+".%s"' % f['name'], pkg, used)))
                 body.append('type %s struct {\n%s\n}\n' % (i, '\n'.join(fl)))
@@ -150,6 +150,10 @@ class Case:
             for m in at.get('impl', []):
                 star = '*' if m['recv'] == 'pointer' else ''
                 body.append('func (%s%s) M%s() {}\n' % (star, i, m['iface']))
+        needq = any((l.get('res') or []) and l['pkg'] == pkg for l in self.P['leaves'] if l['k'] == 'func') or \
+            (pkg == 'a' and any((i.get('res') or []) for i in self.P['injs']))
+        if needq:
+            body.append('type VNamedFunc func()\ntype VErrAlias = error\ntype VErrLike interface{ Error() string }\n')
         return 'package %s\n\n%s%s' % (self.goname(pkg), self.imports(pkg, used), '\n'.join(body))
 
     def result_types(self, x, outty):
@@ -162,6 +166,8 @@ class Case:
             if x['er']:
                 r.append('error')
             return r, True
+        if res == ['none']:
+            return [], False
         m = {'value': outty, 'error': 'error', 'cleanup': 'func()', 'namedfunc': 'VNamedFunc',
              'otherfunc': 'func() int', 'erralias': 'VErrAlias', 'errlike': 'VErrLike'}
         return [m[k] for k in res], False
@@ -188,7 +194,7 @@ class Case:
             sig += ('(%s)' % ', '.join(res)) if len(res) != 1 else res[0]
             if not derived:
                 need_q = True
-                body.append('%s {\n\tpanic("signature-only provider")\n}\n' % sig if res else 'func %s(%s) {\n}\n' % (l['name'], ', '.join(params)))
+                body.append('%s {\n\tpanic("signature-only provider")\n}\n' % sig)
                 continue
             lines = ['\ttok, fail := rt.Call(%s)' % ', '.join(['"%s"' % l['name']] + names)]
             lines.append('\tif fail {')
@@ -215,8 +221,6 @@ class Case:
             return None
         extra = ['"%s/rt"' % MOD]
         pre = ''
-        if need_q:
-            pre = ('type VNamedFunc func()\ntype VErrAlias = error\ntype VErrLike interface{ Error() string }\n\n')
         if not any('rt.' in b for b in body):
             extra = []
         return 'package %s\n\n%s%s%s' % (self.goname(pkg), self.imports(pkg, used, extra), pre, '\n'.join(body))
